@@ -371,7 +371,7 @@ def run_c19(ctx):
 def run_c20_instr(ctx):
     q = ctx.tier == "quick"
     mc_stage(ctx, "neighbor_ids", NEIGH[:1], dict(IntVals=[-1, 0, 1, 2, 3, 8, 9, 27, 64, 65, 70] if not q else [-1, 0, 1, 2, 9, 64, 70], DInt=3,
-                                                   FloatVals=[F["zero"], F["one"], F["x15"], F["three"], F["nan"], F["mone"], F["inf"], F["h"]] if not q else [F["one"], F["x15"], F["nan"]], DFloat=1))
+                                                   FloatVals=[F["zero"], F["one"], F["x15"], F["three"], F["nan"], F["mone"], F["inf"], F["h"], 1073741823, 1065353215] if not q else [F["one"], F["x15"], F["nan"], 1073741823], DFloat=1))   # 1073741823: the largest float below 2
     mc_stage(ctx, "neighbor_vals", NEIGH[1:], dict(CodePool="recs", IntVals=[-1, 0, 1, 2, 9, 70] if not q else [0, 1, 9, 70], DInt=4,
                                                     FloatVals=[F["one"], F["x15"], F["nan"]] if not q else [F["x15"]], DFloat=1, DCode=1 if q else 2))
     # every value position of nested records (positions beyond the first values of a nested sublist)
@@ -823,6 +823,24 @@ def run_c18(ctx):
                             {"m": "remove_node", "args": [origins[pos]]}, {"m": "diff", "args": [1]}, {"m": "diff_text", "args": [1]},
                             {"m": "to_string", "args": []}, {"m": "edge_size", "args": []}]
                     cs.append({"id": "edgeorder-%03d" % k, "api": "graph", "nid": 1, "ops": ops}); k += 1
+    # two snapshots that differ in one weight only - by one unit in the last place of a small weight, by less than
+    # any fixed tolerance, by the sign of zero (IEEE-equal: no difference), or not at all although the weight is infinite
+    PAIRS = [(gen.f2b(0.25), gen.f2b(0.25) + 1, True), (gen.f2b(0.0), gen.f2b(1e-9), True), (gen.f2b(1e-8), gen.f2b(2e-8), True),
+             (gen.f2b(1e-30), gen.f2b(-1e-30), True), (1, 2, True), (gen.f2b(1.0), gen.f2b(1.0) - 1, True),
+             (gen.f2b(float("inf")), gen.f2b(float("inf")), False), (gen.f2b(float("-inf")), gen.f2b(float("-inf")), False),
+             (gen.f2b(float("inf")), gen.f2b(float("-inf")), True), (gen.f2b(3.4028235e38), gen.f2b(float("inf")), True),
+             (gen.f2b(0.0), gen.f2b(-0.0), False), (gen.f2b(0.1), gen.f2b(0.1), False), (gen.f2b(1e10), gen.f2b(1e10) + 1, True)]
+    for k2, (w1, w2, _) in enumerate(PAIRS):
+        for via in ("set_weight", "readd"):
+            ops = [{"m": "add_node", "args": [0]}, {"m": "add_node", "args": [1]}, {"m": "add_edge", "args": [1, 2, w1]},
+                   {"m": "add_edge", "args": [2, 2, gen.f2b(float("inf"))]}, {"m": "clone", "args": []}, {"m": "diff", "args": [1]}, {"m": "diff_text", "args": [1]}]
+            if via == "set_weight":
+                ops += [{"m": "set_weight", "args": [1, 2, w2]}]
+            else:
+                ops += [{"m": "remove_edge", "args": [1, 2]}, {"m": "add_edge", "args": [1, 2, w2]}]
+            ops += [{"m": "diff", "args": [1]}, {"m": "diff_text", "args": [1]}, {"m": "get_weight", "args": [1, 2]},
+                    {"m": "clone", "args": []}, {"m": "diff", "args": [1]}, {"m": "diff", "args": [2]}, {"m": "diff_text", "args": [2]}]
+            cs.append({"id": "weightpair-%02d-%s" % (k2, via), "api": "graph", "nid": 1, "ops": ops})
     # many incoming edges, a node removed from the middle, then every remaining pair added again (a no-op: at most
     # one edge per ordered pair), in several insertion orders
     for n_in in (3, 4, 5, 6):
@@ -864,7 +882,10 @@ def run_c20(ctx):
         if d > 4:
             n = g.r.randint(1, 150)
         rad = g.r.choice([0.0, 0.5, 1.0, 1.2, 1.42, 1.5, 1.74, 2.0, 2.1, 3.0, 2.5, 4.5, -1.0, float("nan")])
-        ops = [{"m": "find_neighbors", "args": [n, d, g.r.randint(0, n - 1), gen.f2b(rad)]}]
+        rb = gen.f2b(rad)
+        if i % 4 == 3:      # the floats next to an integer lattice distance, on either side (decided exactly by the specification)
+            rb = gen.f2b(float(g.r.randint(1, 6))) + g.r.choice([-2, -1, 1])
+        ops = [{"m": "find_neighbors", "args": [n, d, g.r.randint(0, n - 1), rb]}]
         cs.append({"id": "topo-%05d" % i, "api": "topo", "ops": ops})
     # dimension counts beyond 32 bits (encoded; see harness us()): no neighbourhood, and no endless search for the edge length
     for k, (n, d, i) in enumerate([(5, -1000, 0), (2, -1000, 1), (100, -1001, 7), (36, -1003, 35), (5, -1, 0), (9, -2, 3)]):
@@ -987,6 +1008,17 @@ def run_c11(ctx):
         s["exec"].append({"k": "ins", "v": "CODE.PRINT"})
         cs.append({"id": "randtree-%06d" % i, "pre": s, "acts": [{"a": "roundtrip"}, {"a": "print"}, {"a": "steps", "k": 2 if t["k"] != "list" else 1}]})
     run_events(ctx, "random_trees", cs)
+    # source texts: whatever tree the implementation's parser makes of a text (any white space, odd tokens) is built from
+    # parser-producible names by construction, and must survive print -> parse as well
+    cs = []
+    for i in range(150 if q else 20000):
+        toks = [t for t in (g.r.choice(ODD_TOKENS) for _ in range(g.r.randint(0, 12))) if "[" not in t and "(" not in t and ")" not in t]
+        text = "( " + "".join(t + g.r.choice(WS_CHARS) for t in toks) + " )"
+        if i % 3 == 0:      # white space of every kind right next to the ends of a list and of the program
+            w = g.r.choice(WS_CHARS)
+            text = "( alpha ( beta gamma%s ) 7 ( %sdelta INTEGER.+ ) omega%s )" % (w, g.r.choice(WS_CHARS), g.r.choice(WS_CHARS))
+        cs.append({"id": "srctree-%06d" % i, "pre": gen.empty_state(), "acts": [{"a": "parse", "text": text}, {"a": "roundtrip", "src": True}, {"a": "print"}]})
+    run_events(ctx, "source_texts", cs)
     # every instruction next to every kind of atom (the printed neighbours of a token must not change how it reads)
     atoms = [{"k": "int", "v": 7}, {"k": "float", "v": gen.f2b(-2.5)}, {"k": "bool", "v": True}, {"k": "ins", "v": "INTEGER.DUP"},
              {"k": "id", "v": "foo"}, {"k": "ivec", "v": [1, 2]}, {"k": "list", "v": []}, {"k": "ins", "v": "NAME.QUOTE"}]
@@ -1047,7 +1079,8 @@ def run_c12(ctx):
     for ilist in ([], ["INTEGER.+"], ["EXEC.CMD", "BOOLEAN.AND"], ctx.registry):
         for bound in ({}, {"a": {"k": "int", "v": 1}, "b": {"k": "bool", "v": True}, "c": {"k": "list", "v": []}},
                       {"x": {"k": "int", "v": 2}, "y": {"k": "int", "v": 3}, "zz": {"k": "list", "v": []}}, {"a": {"k": "int", "v": 1}, "q": {"k": "int", "v": 3}, "c": {"k": "list", "v": []}}):
-            for pbits, pzero in ((0, True), (981668463, False), (gen.f2b(1.0), False)):
+            # (probabilities outside [0, 1] and NaN are configuration values like any other: only sizes and leaves are judged)
+            for pbits, pzero in ((0, True), (981668463, False), (gen.f2b(1.0), False), (gen.f2b(1.5), False), (gen.f2b(-0.25), False), (2143289344, False), (gen.f2b(float("inf")), False)):
                 st = gen.empty_state(); st["bind"] = bound; st["cfg"]["new_name_p"] = pbits
                 # nothing but the binding table, the instruction list and the new-name probability may shape the
                 # program: unbound names waiting on the NAME stack, other stacks, the RAND bounds of other types
@@ -1213,6 +1246,31 @@ def run_c14(ctx):
         s["float"] = [gen.f2b(g.r.choice([0.0, 1.0, 1.5, 2.0]))] + s["float"]
         s["exec"] = [ins(g.r.choice(NEIGH))]
         cases.append({"id": "detnb-%05d" % i, "pre": s, "steps": 2})
+    # element-wise vector instructions with offsets at the ends of the integer range (arithmetic that wraps in one
+    # build profile and traps in the other gives different final states)
+    k = 0
+    for name in reg:
+        if name.split(".")[0] in ("BOOLVECTOR", "INTVECTOR", "FLOATVECTOR") and name.split(".", 1)[1] in ("AND", "OR", "NOT", "+", "-", "*", "/", "GET", "SET", "ROTATE", "SHOVE", "YANK", "YANKDUP"):
+            for ofs in (2147483647, 2147483646, -2147483648, -2147483647):
+                s = gen.empty_state()
+                s["bvec"] = [[True, False, True], [False, True, True, False]]
+                s["ivec"] = [[1, 2, 3], [4, 5, 6, 7]]
+                s["fvec"] = [[gen.f2b(1.0), gen.f2b(2.0), gen.f2b(0.5)], [gen.f2b(4.0), gen.f2b(8.0), gen.f2b(1.5), gen.f2b(3.0)]]
+                s["int"] = [ofs, ofs, 2]; s["float"] = [gen.f2b(2.0)]; s["bool"] = [True]
+                s["exec"] = [ins(name)]
+                cases.append({"id": "detofs-%04d" % k, "pre": s, "steps": 2}); k += 1
+    # several hundred searches that SUCCEED deep inside nested lists, on every thread and in every order (state that a
+    # search leaves behind outside the PushState shows in the answers of the later ones)
+    I = lambda v: {"k": "int", "v": v}
+    idn = lambda v: {"k": "id", "v": v}
+    nest = lambda d, x: x if d == 0 else lst([I(d), nest(d - 1, x), idn("pad%d" % d)])
+    for i in range(160 if q else 1200):
+        d = 1 + i % 5
+        needle = [I(77), idn("needle"), lst([I(1), I(2)]), ins("NOOP")][i % 4]
+        s = gen.empty_state()
+        s["code"] = [needle, nest(d, needle)] if i % 2 else [nest(d, needle), needle]
+        s["exec"] = [ins(["CODE.CONTAINS", "CODE.MEMBER", "CODE.POSITION", "CODE.CONTAINER"][(i // 4) % 4])]
+        cases.append({"id": "detfind-%05d" % i, "pre": s, "steps": 2})
     # histories on the queues and the graph stack (earlier traffic must not show in a later run on an equal state)
     for c in io_sequence_cases(ctx, 40 if q else 1500) + graph_sequence_cases(ctx, 20 if q else 800):
         body = [x for x in c["pre"]["exec"] if not (x.get("k") == "ins" and (x["v"].endswith(".RAND") or x["v"] in NONDET or x["v"] == "GRAPH.NODE*ADD"))]
@@ -1392,6 +1450,20 @@ def run_c15(ctx):
             for iname in ("NAME.QUOTE", "CODE.DEFINITION", "EXEC.DEFINE", "NAME.RANDBOUNDNAME"):
                 s3 = json.loads(json.dumps(s2)); s3["exec"] = [ins(iname), idn(top)]
                 cs.append({"id": "alias-%d-%s-%s" % (k, top, iname), "pre": s3, "acts": [{"a": "step"}], "predict": "bounded"})
+    # alias chains that lead INTO a cycle the evaluated name is not part of, built by the program itself and then run
+    # step by step (every single step stays bounded)
+    for k, (chain, top) in enumerate([([("w", "x"), ("x", "y"), ("y", "x")], "w"), ([("w", "x"), ("x", "x")], "w"),
+                                      ([("v", "w"), ("w", "x"), ("x", "y"), ("y", "z"), ("z", "x")], "v"), ([("w", "x"), ("x", "y"), ("y", "w")], "w")]):
+        s = gen.empty_state()
+        s["bind"] = {a: idn(b) for a, b in chain}
+        s["exec"] = [idn(top), ins("NOOP")]
+        cs.append({"id": "aliasinto-%d" % k, "pre": s, "acts": [{"a": "steps", "k": 30}], "predict": "bounded"})
+        s2 = gen.empty_state()
+        prog = []
+        for a, b in chain:
+            prog += [idn(a), ins("EXEC.DEFINE"), idn(b)]
+        s2["exec"] = prog + [idn(top)]
+        cs.append({"id": "aliasinto-prog-%d" % k, "pre": s2, "acts": [{"a": "steps", "k": 60}], "predict": "bounded"})
     run_events(ctx, "combinations", cs, mem_kb=1024 * 1024, timeout_case=6, env={"PV_UNGUARDED": "1"}, max_hangs=40)
     # (C) doubling programs under the default limits
     cs = []
